@@ -12,6 +12,7 @@ RULE = ("random families of 1-4 inputs (+ optional climatology) with independent
         "present forecasts must leave this input's csv column byte-identical. signature = (#inputs, clim?, "
         "formats, field combo, axis); non-trivial = at least one case of that request is dropped from an input "
         "only because ANOTHER input/climatology lacks a value there.")
+RULE += " " + 'Half of the cases run under random selection options (-d/-tod/-t/-o/-l/-lx/-latrange/-lonrange/-elevrange) through API and csv.'
 ASSUMPTIONS = ["observations agree between files wherever several files have them (files describe the same truth)",
                "all inputs of an ensemble request have the same number of members"]
 REQUIRED_COUNTERS = ["get_scores_compared", "cross_input_equal_checks", "metamorphic_pairs", "count_csv_rows", "whole_array_checks"]
